@@ -520,6 +520,9 @@ class C20(Property):
     def __init__(self) -> None:
         self._tmp: Optional[tempfile.TemporaryDirectory] = None
         self._n = 0
+        # module-level logging calls install a stderr handler when the root logger has none
+        if not logging.getLogger().handlers:
+            logging.getLogger().addHandler(logging.NullHandler())
         self._config_ready = False
 
     # ------------------------------------------------------------------ scratch space
@@ -772,6 +775,64 @@ class C20(Property):
                 if entries:
                     yield case(entries, mode, "", cwd="{out}", argform="rel")
 
+    # input name -> the base name `canonical_base_filename` derives from it
+    DERIVED = {"genome.gbk": "genome", "genome.fa.gz": "genome", "x.tar.GZ": "x", "base.json": "base",
+               ".hidden": ".hidden", "a.b.c.xz": "a.b", "noext": "noext", "g.bz": "g", "up.GBK.Xz": "up",
+               "dots..gbk": "dots.", "sp ace.fa": "sp ace", "reads.fa.bz": "reads", "gen.gbk.XZ": "gen"}
+
+    def names_cases(self, rng: random.Random, full: bool) -> Iterator[Dict[str, Any]]:
+        """derived names: empty --output-dir, --output-basename, compressed inputs, the results' own name"""
+        def ent(name: str, is_dir: bool) -> List[Any]:
+            return [name, is_dir, [] if is_dir else [["raw", f"content of {name}"]]]
+        for inp, derived in self.DERIVED.items():
+            for basename in ("", "custom"):
+                dirname = basename or derived
+                for target in ("absent", [], [ent("input", True)], [ent("notes.txt", False)],
+                               [ent("a.region001.gbk", False), ent(derived + ".json", False)]):
+                    yield {"kind": "prepare", "family": "names", "target": target, "input": inp, "dirname": dirname,
+                           "logpath": "", "cwd": "{root}", "argform": "empty", "basename": basename}
+                    yield {"kind": "prepare", "family": "names", "target": target, "input": inp, "dirname": "out",
+                           "logpath": "{out}/run.log", "basename": basename}
+                for res_input in ("seq.gbk", "other.fa.gz"):
+                    for argform, dirname in (("empty", basename or derived), ("abs", "out")):
+                        case = {"kind": "pipeline", "family": "names", "target": "absent", "input": inp,
+                                "dirname": dirname, "logpath": "", "cwd": "{root}", "argform": argform,
+                                "basename": basename, "results_input": res_input,
+                                "results": {"records": [None], "results": [[["m0", ["mod", True, GOOD]]]],
+                                            "timings": ["dict", []]}}
+                        yield case
+                        if full:
+                            yield dict(case, results={"records": [None], "results": [[["m0", ["invalid", ["list", 0]]]]],
+                                                      "timings": ["dict", []]},
+                                       target=[ent((basename or derived) + ".json", False)] if inp.endswith(".json") else "absent")
+
+    def reload_cases(self, rng: random.Random, full: bool) -> Iterator[Dict[str, Any]]:
+        """reuse of a real results file whose module results nobody regenerates"""
+        def ent(name: str, is_dir: bool) -> List[Any]:
+            return [name, is_dir, [] if is_dir else [["raw", f"content of {name}"]]]
+        values = [["dict", []], ["list", []], ["str", ""], ["int", 0], ["bool", False], ["none"], GOOD,
+                  ["conv", ["dict", []]], ["dunder", ["none"]], ["list", [["int", 1]]], ["str", "x"], ["bool", True],
+                  ["seq", "ACGT"], ["both", ["dict", []], ["int", 1]]]
+        listings = [[ent("base.json", False)], [ent("base.json", False), ent("rec.region001.gbk", False), ent("notes.txt", False)]]
+        limit = 3 if full else 2
+        for n in range(1, limit + 1):
+            for m in range(1, limit + 1):
+                for i in range(n):
+                    for j in range(m):
+                        for v in values if full else rng.sample(values, 5) + values[:1]:
+                            res = [[[f"m{b}", ["mod", True, ["none"]]] for b in range(m)] for _ in range(n)]
+                            res[i][j] = [f"m{j}", ["mod", rng.random() < 0.5, v]]
+                            yield {"kind": "pipeline", "family": "reload", "reload": True, "target": rng.choice(listings),
+                                   "input": "base.json", "dirname": "out", "logpath": "{out}/run.log",
+                                   "results": {"records": [None] * n, "results": res, "timings": ["dict", []]}}
+        for _ in range(300 if full else 40):
+            n = rng.choice([1, 2, 3])
+            res = [[[f"m{b}", rng.choice([["none"], ["mod", rng.random() < 0.5, rng.choice(values)]])]
+                    for b in range(rng.choice([0, 1, 2, 4]))] for _ in range(n)]
+            yield {"kind": "pipeline", "family": "reload", "reload": True, "target": rng.choice(listings),
+                   "input": "base.json", "dirname": "out", "logpath": "{out}/run.log",
+                   "results": {"records": [None] * n, "results": res, "timings": ["dict", []]}}
+
     PATH_EDGE = ["", "/", "//", "///", "////a", "//a", "/a", "a", ".", "..", "./", "../", "a/..", "a/../..", "/..",
                  "//..", "/a/./b//c/../d/", "a//b", "/a/b/", ".hidden", "..x", "a.", "a.b.c", "/x.d/file", "/x/.rc",
                  "x.tar.gz", "/a/b.c/", "...", "a/.../b", "run.log", "/tmp/out/run.log", "out/run"]
@@ -828,6 +889,8 @@ class C20(Property):
         yield from self.prepare_cases(rng, full)
         yield from self.logname_cases(rng, full)
         yield from self.path_cases(rng, full)
+        yield from self.names_cases(rng, full)
+        yield from self.reload_cases(rng, full)
         yield from self.pipeline_cases(rng, full)
         self.exhaustive_done = True
         self.extra_coverage = {"grid_limit": 4 if full else 3,
@@ -925,7 +988,10 @@ class C20(Property):
             logfile = os.path.join(real, case["log"])
         cwd = fill(case["cwd"]) if case.get("cwd") else None
         dirname = case["dirname"]
-        if case.get("argform", "abs") == "rel":
+        if case.get("argform", "abs") == "empty":
+            assert cwd is not None      # the directory is derived: abspath(<prefix of the input name>)
+            arg = ""
+        elif case.get("argform", "abs") == "rel":
             assert cwd is not None
             arg = os.path.relpath(real, cwd) + ("/" if dirname.endswith("/") else "")
         else:
@@ -966,14 +1032,16 @@ class C20(Property):
         rec = _Recorder(path, real)
         err = None
         with self._Cwd(paths["cwd"]) as cwd:
-            self.config(logfile=paths["logfile"])
+            config = self.config(logfile=paths["logfile"], output_basename=case.get("basename", ""))
             with _Capture(rec):
                 try:
                     main.prepare_output_directory(paths["name"], os.path.join(path, case["input"]))
                 except Exception as exc:  # pylint: disable=broad-except
                     err = exn_name(exc)
+            effective = config.output_dir
         return {"trace": self._order_removes(case, rec.events), "err": err,
-                "target": self._observe_target(case, real, path), "paths": dict(paths, cwd=cwd)}
+                "target": self._observe_target(case, real, path),
+                "paths": dict(paths, cwd=cwd, effective=effective)}
 
     @staticmethod
     def _order_removes(case: Dict[str, Any], events: List[Any]) -> List[Any]:
@@ -1000,9 +1068,20 @@ class C20(Property):
         input_path = os.path.join(path, case["input"])
         rec = _Recorder(path, real)
         results = build_results(case["results"], rec)
-        results.input_file = "seq.gbk"   # the name the results carry; the base name comes from the input path
+        # the name the results carry; the base name normally comes from the input path
+        results.input_file = case.get("results_input", "seq.gbk")
         for record in results.records:
             record.skip = "skipped by the harness"
+        extra: Dict[str, Any] = {}
+        if case.get("reload"):
+            # a real results file, written by the real code from the stub results, is what gets reused:
+            # `read_data` is the real one, and nothing regenerates the module results it loads
+            input_path = os.path.join(real, "base.json")
+            results.write_to_file(input_path)
+            with open(input_path, encoding="utf-8") as handle:
+                extra = {"initial_json": doc_tokens(handle.read()), "json_name": "base.json"}
+            rec.events.clear()
+            reuse = True
 
         def passthrough(records: Any, *_args: Any, **_kwargs: Any) -> Any:
             return records
@@ -1026,13 +1105,16 @@ class C20(Property):
                 mock.patch.object(main, "_get_all_enabled_modules", lambda _m, _o: ["stub"]), \
                 mock.patch.object(main, "check_prerequisites", lambda _m, _o: None), \
                 mock.patch.object(main, "verify_options", lambda _o, _m: True), \
-                mock.patch.object(main, "read_data", lambda _s, _o: results), \
+                mock.patch.object(main, "read_data", main.read_data if case.get("reload")
+                                  else (lambda _s, _o: results)), \
+                mock.patch.object(main, "run_detection", lambda _r, _o, _m: {}), \
                 mock.patch.object(record_processing, "pre_process_sequences", passthrough), \
                 mock.patch.object(main, "prepare_output_directory", prepare), \
                 mock.patch.object(main, "annotate_records", annotate), \
                 mock.patch.object(main, "write_outputs", outputs), \
                 _Capture(rec):
             options = self.config(logfile=paths["logfile"], output_dir=paths["name"],
+                                  output_basename=case.get("basename", ""),
                                   reuse_results=input_path if reuse else "")
             try:
                 main._run_antismash(None if reuse else input_path, options)  # pylint: disable=protected-access
@@ -1040,7 +1122,8 @@ class C20(Property):
                 err = exn_name(exc)
                 exc = None
         return {"trace": self._order_removes(case, rec.events), "err": err,
-                "target": self._observe_target(case, real, path), "paths": dict(paths, cwd=cwd)}
+                "target": self._observe_target(case, real, path),
+                "paths": dict(paths, cwd=cwd, effective=options.output_dir), **extra}
 
     # ------------------------------------------------------------------ driver + verdict
     def driver_line(self, case: Dict[str, Any], obs: Dict[str, Any]) -> Optional[Dict[str, Any]]:
@@ -1052,10 +1135,16 @@ class C20(Property):
             return {"kind": "path", "a": case["a"], "b": case["b"]}
         paths = obs.get("paths") or {"cwd": "/", "name": "/unobserved", "logfile": ""}
         line = {"kind": case["kind"], "target": case["target"], "input": case["input"],
-                "cwd": paths["cwd"], "name": paths["name"], "logfile": paths["logfile"], "impl": impl}
+                "cwd": paths["cwd"], "name": paths["name"], "logfile": paths["logfile"],
+                "basename": case.get("basename", ""), "impl": impl}
         if case["kind"] == "pipeline":
             line["results"] = case["results"]
-            line["json"] = case["json"]
+            line["results_input"] = case.get("results_input", "seq.gbk")
+            line["reload"] = bool(case.get("reload"))
+            if case.get("reload") and isinstance(line["target"], list) and "initial_json" in obs:
+                # the reused file holds what the first (real) write put there
+                line["target"] = [[n, d, obs["initial_json"] if n == obs["json_name"] else c]
+                                  for n, d, c in line["target"]]
         return line
 
     def judge(self, case: Dict[str, Any], obs: Dict[str, Any], drv: Optional[Dict[str, Any]]) -> Judgement:
@@ -1072,6 +1161,12 @@ class C20(Property):
         state = "dir" if case["kind"] == "write" else "target"
         mine = {"trace": canon_trace(obs["trace"]), "err": obs["err"], state: obs[state]}
         theirs = {"trace": canon_trace(model["trace"]), "err": model["err"], state: model[state]}
+        if case.get("argform") == "empty":
+            mine["name"] = obs["paths"].get("effective")
+            theirs["name"] = drv.get("name")
+        if case.get("reload"):
+            # reloaded records are plain `Record`s: their conversions are not observable
+            theirs["trace"] = [e for e in theirs["trace"] if not (isinstance(e, list) and e[0] in ("rec", "mod"))]
         corr = mine == theirs
         spec_ok = bool(spec["impl_ok"])
         detail = ""
